@@ -546,3 +546,70 @@ Section Cmd.
         * apply Hside; [exact Hk|]. split; [exact Nq|]. split; [exact Hlen|]. cbn [In] in *. tauto.
   Qed.
 End Cmd.
+
+(* ------------------------------------------------------------------ the empty address (`:w`, and `:wq` / `:x` through ec_quit, which passes ""):
+   the hypothesis of region_run about the call of the translated ex_region is a FACT -- ex_region("", &beg, &end) stores xrow and
+   xrow (+ 1) and answers whether xrow is outside the buffer; its local `loc` (address taken) is one more block behind the end *)
+Lemma region_empty ext m gb pv bl ts blk n x lcb bb be vb ve d fuel :
+  buf0 m gb pv bl ts -> nth_error m bl = Some blk -> nth_error blk L_ln_n = Some (VInt n) -> i32 n ->
+  str_at m lcb [] -> str_at m G_lit_25_1 [37%N] -> cell_at m G_xrow x -> i32 x -> i32 (x + 1) ->
+  nth_error m bb = Some [vb] -> nth_error m be = Some [ve] -> bb <> be ->
+  ~ In bb [G_bufs; bl; G_xrow] -> ~ In be [G_bufs; bl; G_xrow] ->
+  callx ext cprog fuel (S (S (S d))) F_ex_region [VPtr lcb 0; VPtr bb 0; VPtr be 0] m
+  = Ok (VInt (b2z ((x <? 0) || (x >? n))), upd (upd (m ++ [[VPtr lcb 0]]) bb [VInt x]) be [VInt (if x =? n then x else x + 1)]).
+Proof.
+  intros A Hl Hn I_n Hloc Hpct Hx Ix Ix1 Hb He Nbe Nb Ne.
+  assert (Lall : forall y, In y [G_bufs; bl; G_xrow; lcb; G_lit_25_1; bb; be] -> (y < length m)%nat).
+  { intros y Hy. apply nth_error_Some. pose proof (b0_blk _ _ _ _ _ A). unfold str_at, cell_at in *. cbn [In] in Hy.
+    destruct Hy as [<-|[<-|[<-|[<-|[<-|[<-|[<-|[]]]]]]]]; congruence. }
+  enterx F_ex_region cf_ex_region. xstep. rewrite malloc_ok by lia. xstep. change (Z.to_nat 1) with 1%nat. cbn [repeat].
+  rewrite (store_ok (m ++ [[VUndef]]) (length m) [VUndef] 0 (VPtr lcb 0)) by (try apply nth_error_app_new; cbn; lia). xstep.
+  change (Z.to_nat 0) with 0%nat. change (upd [VUndef] 0 (VPtr lcb 0)) with [VPtr lcb 0]. rewrite upd_app_new.
+  match goal with |- context [load ?mm (length m) 0] => remember mm as m2 eqn:Em2 end.
+  assert (Old2 : forall y, (y < length m)%nat -> nth_error m2 y = nth_error m y) by (intros y Hy; subst m2; apply nth_error_app_old; exact Hy).
+  assert (Hlp : load m2 (length m) 0 = Ok (VPtr lcb 0)) by (unfold load; subst m2; rewrite nth_error_app_new; reflexivity).
+  rewrite Hlp. xstep.
+  assert (Hloc2 : str_at m2 lcb []) by (apply (str_at_same m m2 _ _ Hloc), Old2, Lall; cbn; tauto).
+  assert (Hpct2 : str_at m2 G_lit_25_1 [37%N]) by (apply (str_at_same m m2 _ _ Hpct), Old2, Lall; cbn; tauto).
+  rewrite (w_strcmp m2 G_lit_25_1 [37%N] lcb [] Hpct2 Hloc2) by (repeat constructor; lia). xstep.
+  change (str_cmp [37%N] []) with 1. xstep. rewrite Hlp. xstep.
+  rewrite (load_str m2 lcb [] _ 0 Hloc2) by (try reflexivity; cbn; lia). xstep. cbn [nthb nth]. change (wrap I8 (Z.of_N 0)) with 0. xstep.
+  assert (Hx2 : cell_at m2 G_xrow x) by (unfold cell_at; rewrite Old2 by (apply Lall; cbn; tauto); exact Hx).
+  rewrite (load_cell m2 G_xrow x Hx2). xstep. repeat rewrite (wrap_I32_id x Ix).
+  assert (Hb2 : nth_error m2 bb = Some [vb]) by (rewrite Old2 by (apply Lall; cbn; tauto); exact Hb).
+  rewrite (store_ok m2 bb [vb] 0 (VInt x) Hb2) by (cbn; lia). xstep. change (Z.to_nat 0) with 0%nat. change (upd [vb] 0 (VInt x)) with [VInt x].
+  assert (Lbb : (bb < length m2)%nat) by (apply nth_error_Some; congruence).
+  match goal with |- context [mkst _ (upd m2 bb ?v)] => remember (upd m2 bb v) as m3 eqn:Em3 end.
+  assert (Old3 : forall y, y <> bb -> nth_error m3 y = nth_error m2 y) by (intros y Hy; subst m3; apply mem_upd_other; assumption).
+  assert (Hx3 : cell_at m3 G_xrow x) by (unfold cell_at; rewrite Old3 by (intro X; apply Nb; rewrite <- X; cbn; tauto); exact Hx2).
+  assert (A3 : buf0 m3 gb pv bl ts).
+  { apply (buf0_same m _ _ _ _ _ A). rewrite Old3 by (intro X; apply Nb; rewrite <- X; cbn; tauto). apply Old2, Lall. cbn; tauto. }
+  assert (Hl3 : nth_error m3 bl = Some blk).
+  { rewrite Old3 by (intro X; apply Nb; rewrite <- X; cbn; tauto). rewrite Old2 by (apply Lall; cbn; tauto). exact Hl. }
+  rewrite (load_cell m3 G_xrow x Hx3). xstep. repeat rewrite (wrap_I32_id x Ix).
+  rewrite (call_ex_lbuf ext m3 gb pv bl ts _ fuel A3). xstep. rewrite (call_lbuf_len ext m3 bl blk n _ fuel Hl3 Hn I_n). xstep.
+  assert (He3 : nth_error m3 be = Some [ve]) by (rewrite Old3 by congruence; rewrite Old2 by (apply Lall; cbn; tauto); exact He).
+  assert (Hfin : forall z, i32 z -> store m3 be 0 (VInt z) = Ok (upd m3 be [VInt z])).
+  { intros z Iz. rewrite (store_ok m3 be [ve] 0 _ He3) by (cbn; lia). reflexivity. }
+  assert (Lbe : (be < length m3)%nat) by (apply nth_error_Some; congruence).
+  assert (Tail : forall z, i32 z ->
+     eval (callx ext cprog fuel (S (S d)))
+            (EOrElse (EBin OLt I32 (ELoad (Some I32) (EGlob G_xrow)) (EConst 0))
+                     (EBin OGt I32 (ELoad (Some I32) (EGlob G_xrow)) (ECall F_lbuf_len [ECall F_ex_lbuf []])))
+            (mkst [VPtr lcb 0; VPtr bb 0; VPtr be 0; VPtr (length m) 0; VInt 0; VUndef] (upd m3 be [VInt z]))
+     = Ok (VInt (b2z ((x <? 0) || (x >? n))), mkst [VPtr lcb 0; VPtr bb 0; VPtr be 0; VPtr (length m) 0; VInt 0; VUndef] (upd m3 be [VInt z]))).
+  { intros z Iz. remember (upd m3 be [VInt z]) as m4 eqn:Em4.
+    assert (Old4 : forall y, y <> be -> nth_error m4 y = nth_error m3 y) by (intros y Hy; subst m4; apply mem_upd_other; assumption).
+    assert (Hx4 : cell_at m4 G_xrow x) by (unfold cell_at; rewrite Old4 by (intro X; apply Ne; rewrite <- X; cbn; tauto); exact Hx3).
+    assert (A4 : buf0 m4 gb pv bl ts) by (apply (buf0_same m3 _ _ _ _ _ A3); apply Old4; intro X; apply Ne; rewrite <- X; cbn; tauto).
+    assert (Hl4 : nth_error m4 bl = Some blk) by (rewrite Old4 by (intro X; apply Ne; rewrite <- X; cbn; tauto); exact Hl3).
+    xstep. rewrite (load_cell m4 G_xrow x Hx4). xstep. repeat rewrite (wrap_I32_id x Ix).
+    destruct (x <? 0); cbn [orb b2z Z.eqb negb]; xstep; [reflexivity|].
+    rewrite (load_cell m4 G_xrow x Hx4). xstep. repeat rewrite (wrap_I32_id x Ix).
+    rewrite (call_ex_lbuf ext m4 gb pv bl ts _ fuel A4). xstep. rewrite (call_lbuf_len ext m4 bl blk n _ fuel Hl4 Hn I_n). xstep.
+    rewrite Z.gtb_ltb. destruct (n <? x); reflexivity. }
+  destruct (x =? n); cbn [b2z Z.eqb negb]; xstep.
+  - rewrite (load_cell m3 G_xrow x Hx3). xstep. repeat rewrite (wrap_I32_id x Ix). rewrite (Hfin x Ix). cbn [bind locals memm]. rewrite exec_return. cbn [eval_opt]. rewrite (Tail x Ix). subst m3 m2. reflexivity.
+  - rewrite (load_cell m3 G_xrow x Hx3). xstep. repeat rewrite (wrap_I32_id x Ix). rewrite (chk_I32 (x + 1) Ix1). xstep. repeat rewrite (wrap_I32_id (x + 1) Ix1). rewrite (Hfin (x + 1) Ix1). cbn [bind locals memm].
+    rewrite exec_return. cbn [eval_opt]. rewrite (Tail (x + 1) Ix1). subst m3 m2. reflexivity.
+Qed.
